@@ -23,7 +23,7 @@ T = {
  "C16": ("differential against encoding/json on identically pre-populated destinations", "4 C16", "All pairs of the fixed value/destination lists plus generated pairs; destination contents compared even after failed decodes."),
  "C17": ("assertions inside the user functions over the complete style x construction x context grid", "4 C17", "The grid is finite and enumerated completely for every zoo payload."),
  "C18": ("complete grid of node kinds x post action x batch shapes, direct and routed with decoy connections", "4 C18", "Finite grid, enumerated completely."),
- "C19": ("last-wins fold oracle over enumerated setting sequences x option/builder splits; behaviour probes; gated pool-size probe", "4 C19", "All sequences up to length 3/4 for both builders; longer ones sampled — the length-6 space is not enumerated and the evidence says so."),
+ "C19": ("last-wins fold oracle over enumerated setting sequences x option/builder splits; behaviour probes (gated batch runs); gated pool-size probe; Go race detector over concurrent batches built through each construction form", "4 C19", "All sequences up to length 3/4 for both builders; longer ones sampled — the length-6 space is not enumerated and the evidence says so."),
  "C20": ("monotonic-clock timestamps in callbacks: exact lower bound; re-run-protected upper bounds; watchdog-bounded interruptibility", "4 C20", "The only property whose oracle reads a clock. The lower bound needs no tolerance; the upper bounds are reported only when they fail 4 times with doubling waits."),
 }
 checks = []
